@@ -150,6 +150,12 @@ def _init_worker():
     import accelforge  # noqa
 
 
+def _warm(i):
+    import time
+    time.sleep(0.3)
+    return os.getpid()
+
+
 def _eval_chunk(recs):
     _init_worker()
     out = []
@@ -272,7 +278,13 @@ def run(ck: Check):
         plan += [("MC_ComponentCosts_rand_t.cfg", ck.seed * 100 + i) for i in range(2)]
     else:
         plan += [("MC_ComponentCosts_rand.cfg", ck.seed)]
-    with ThreadPoolExecutor(5) as tp, ProcessPoolExecutor(min(8, os.cpu_count() or 1)) as pool:
+    ncpu = min(8, os.cpu_count() or 1)
+    with ProcessPoolExecutor(ncpu, initializer=_init_worker) as pool, ThreadPoolExecutor(5) as tp:
+        # All worker processes are forked HERE, before any thread starts a TLC subprocess: a
+        # fork that happens while subprocess.Popen is between fork and exec inherits Popen's
+        # error pipe and blocks that Popen (and with it TLC's stdout) for ever.
+        if len(set(pool.map(_warm, range(ncpu * 4)))) < 1:
+            raise Machinery("worker pool did not start")
         futs = []
         for cfg, seed in plan:
             kw = {"coverage": False, "workers": 4}
